@@ -14,19 +14,19 @@ TB_COMMON = [KERNEL, 'axioms: propext, Classical.choice, Quot.sound only (audite
 # theorem registry: property -> [(module, [theorem names])]
 THEOREMS = {
     'C11': [('ChessVerif.Props.C11', ['Chess.Props.C11_slider', 'Chess.Props.C11_leapers', 'Chess.Props.C11_lines', 'Chess.Props.C11_pawn'])],
-    'C01': [('ChessVerif.Props.C01', ['Chess.Props.C01_movegen_exact', 'Chess.Props.C01_exact', 'Chess.Props.C01_exact_noep', 'Chess.Props.C01_unpinned_legal', 'Chess.Props.C01_no_duplicates', 'Chess.Props.C01_move_shape', 'Chess.Props.C01_king_moves_exact', 'Chess.Props.C01_castling_exact', 'Chess.Props.C01_castling_emitted',
+    'C01': [('ChessVerif.Props.C01', ['Chess.Props.C01_movegen_exact', 'Chess.Props.C01_exact', 'Chess.Props.C01_reachable', 'Chess.Props.C01_exact_noep', 'Chess.Props.C01_unpinned_legal', 'Chess.Props.C01_no_duplicates', 'Chess.Props.C01_move_shape', 'Chess.Props.C01_king_moves_exact', 'Chess.Props.C01_castling_exact', 'Chess.Props.C01_castling_emitted',
                                      'Chess.Props.C01_forbidden_squares', 'Chess.Props.C01_forbidden_nocheck', 'Chess.Props.C01_in_check_test',
                                      'Chess.Props.C01_leaper_geometry_partial', 'Chess.Props.C01_slider_geometry_partial', 'Chess.Props.C01_castling_paths_partial',
                                      'Chess.Props.C01_king_moves_partial', 'Chess.Props.C01_pins_partial'])],
-    'C02': [('ChessVerif.Props.C02', ['Chess.Props.C02_full', 'Chess.Props.C02_replay_legal', 'Chess.Props.C02_step', 'Chess.Props.C02_replay', 'Chess.Props.C02_castling_clock']),
+    'C02': [('ChessVerif.Props.C02', ['Chess.Props.C02_game', 'Chess.Props.C02_wf_invariant', 'Chess.Props.C02_reachable_wf', 'Chess.Props.C02_full', 'Chess.Props.C02_replay_legal', 'Chess.Props.C02_step', 'Chess.Props.C02_replay', 'Chess.Props.C02_castling_clock']),
             ('ChessVerif.Lemmas.OKDec', ['Chess.specHypothesesHold_sound'])],
     'C03': [('ChessVerif.Props.C03', ['Chess.Props.C03_full', 'Chess.Props.C03_undo_do', 'Chess.Props.C03_undo_null', 'Chess.Props.C03_nested', 'Chess.Props.C03_observables',
                                      'Chess.Props.C03_key_after_legal']),
             ('ChessVerif.Lemmas.OKDec', ['Chess.hypothesesHold_sound'])],
     'C04': [('ChessVerif.Props.C04', ['Chess.Props.C04_key_inv', 'Chess.Props.C04_scratch_is_init', 'Chess.Props.C04_same_pos_same_key', 'Chess.Props.C04_pawn_key'])],
-    'C05': [('ChessVerif.Props.C05', ['Chess.Props.C05_bestmove', 'Chess.Props.C05_bestmove_generated', 'Chess.Props.C05_bestmove_legal', 'Chess.Props.C05_pv_legal'])],
+    'C05': [('ChessVerif.Props.C05', ['Chess.Props.C05_bestmove', 'Chess.Props.C05_bestmove_generated', 'Chess.Props.C05_bestmove_legal', 'Chess.Props.C05_pv_legal', 'Chess.Props.C05_pv_legal_rules'])],
     'C06': [('ChessVerif.Props.C06', ['Chess.Props.C06_one_bestmove', 'Chess.Props.C06_stop_not_lost', 'Chess.Props.C06_isready', 'Chess.Props.C06_race_free'])],
-    'C07': [('ChessVerif.Props.C07', ['Chess.Props.C07_repetition_keys', 'Chess.Props.C07_repetition', 'Chess.Props.C07_rule50', 'Chess.Props.C07_draw', 'Chess.Props.C07_mate_stalemate', 'Chess.Props.C07_mate_stalemate_exact',
+    'C07': [('ChessVerif.Props.C07', ['Chess.Props.C07_repetition_keys', 'Chess.Props.C07_repetition', 'Chess.Props.C07_rule50', 'Chess.Props.C07_draw', 'Chess.Props.C07_mate_stalemate', 'Chess.Props.C07_mate_stalemate_exact', 'Chess.Props.C07_reachable',
                                      'Chess.Props.C07_check', 'Chess.Props.C07_attacked', 'Chess.Props.C07_check_after_move', 'Chess.Props.C07_material', 'Chess.Props.C07_geometry']),
             ('ChessVerif.Lemmas.OKDec', ['Chess.check_eq_of_hypotheses', 'Chess.material_eq_of_hypotheses'])],
     'C08': [('ChessVerif.Props.C08', ['Chess.Props.C08_distance', 'Chess.Props.C08_printed', 'Chess.Props.C08_ranges_disjoint'])],
